@@ -99,8 +99,13 @@ STARTS_Q = [
 STARTS_T = STARTS_Q + [
     ("2d-23-v3", (0.0, -1.0), (2e-9, 1e-9), (2, 3), 3, False),
     ("3d-322-v3-cplx", (0.3, 0.0, -2.0), (0.5, 0.5, 0.25), (3, 2, 2), 3, True),
+    ("3d-213-v3-custom-perm", (0.0, 0.0, 0.0), (5e-9, 5e-9, 3e-9), (2, 1, 3), 3, False),
+    ("2d-41-s-periodic", (-2.0, 0.0), (1.0, 1.0), (4, 1), 1, False),
 ]
 STARTDEF = {s[0]: s for s in STARTS_T}
+# extras: custom labels with a cyclically permuted mapping; periodic boundary conditions
+EXTRA = {"3d-213-v3-custom-perm": {"vdims": ["ca", "cb", "cc"], "vdim_mapping": {"ca": "y", "cb": "z", "cc": "x"}},
+         "2d-41-s-periodic": {"bc": "x"}}
 
 
 def start_field(name, seed):
@@ -112,7 +117,8 @@ def start_field(name, seed):
     sp2 = pmax.copy()
     if n[0] > 1:
         sp2[0] = pmin[0] + (n[0] - 1) * cell[0]
-    mesh = df.Mesh(region=df.Region(p1=tuple(pmin), p2=tuple(pmax)), n=n,
+    extra = EXTRA.get(name, {})
+    mesh = df.Mesh(region=df.Region(p1=tuple(pmin), p2=tuple(pmax)), n=n, bc=extra.get("bc", ""),
                    subregions={"sr": df.Region(p1=tuple(pmin), p2=tuple(sp2))})
     a = tracer(n, k, seed, cplx=cplx)
     if not cplx:
@@ -125,7 +131,8 @@ def start_field(name, seed):
         flat[1, 0] = 1e-9
         flat[2, :] = 0.0
         flat[2, -1] = 1e-7
-    return df.Field(mesh, nvdim=k, value=a, dtype=complex if cplx else None, valid=coded_mask(n, 0), unit="A/m")
+    return df.Field(mesh, nvdim=k, value=a, dtype=complex if cplx else None, valid=coded_mask(n, 0), unit="A/m",
+                    vdims=extra.get("vdims"), vdim_mapping=extra.get("vdim_mapping"))
 
 
 def other_field(f, seed):
